@@ -86,6 +86,7 @@ func ZZVerifC14WaitAll() { zzGraph(nd.Param("WP", 1), 3, true) }
 
 func zzGraph(pBound, t int, fixed bool) {
 	nd.Schedule(pBound)
+	nd.Races()
 	trace := &zzTrace{}
 	names := []string{"t0", "t1", "t2"}
 	fails := make([]bool, t)
